@@ -17,6 +17,7 @@ FAMILY = [
     ("start: a NEWLINE\na: &'b' a 'x' | 'b'\n", r"b( x)*", None),
     # a nullable rule in front (it must return a truthy value on the empty match: two optionals give a list)
     ("start: a NEWLINE\na: e a 'x' | 'b'\ne: 'q'? 'r'?\n", None, None),
+    ("start: a NEWLINE\na: 'q'? a 'x' | 'b'\n", None, None),          # the grammar of C02_hidden_left_recursion_after_a_nullable_item
     ("start: a NEWLINE\na: (a 'x' | a 'y') | 'b' | 'c'\n", r"[bc]( [xy])*", "start: a NEWLINE\na: ('b' | 'c') ('x' | 'y')*\n"),
     ("start: a NEWLINE\na: a 'x' | a 'y' | 'b' | 'c'\n", r"[bc]( [xy])*", "start: a NEWLINE\na: ('b' | 'c') ('x' | 'y')*\n"),
     ("start: a NEWLINE\na: c 'x' | 'b'\nc: a\n", r"b( x)*", None),
@@ -131,8 +132,9 @@ def run(chk: common.Check, tier: str):
     import genmodel as gm
     import grammar2coq as g2c
     from checks.c13 import tokens_set
-    ties = [(FAMILY[0][0], [("a", "axb_meth")]), ("start: c NEWLINE\na: c 'x' | 'b'\nc: a\n", [("a", "ind_a"), ("c", "ind_c")])]
-    pre = gm.prelude(tokens_set()) + """From Pegen Require Import Runtime.Exec Proofs.GrowAxb Proofs.GrowIndirect.
+    ties = [(FAMILY[0][0], [("a", "axb_meth")]), ("start: c NEWLINE\na: c 'x' | 'b'\nc: a\n", [("a", "ind_a"), ("c", "ind_c")]),
+            ("start: a NEWLINE\na: 'q'? a 'x' | 'b'\n", [("a", "hid_meth")])]
+    pre = gm.prelude(tokens_set()) + """From Pegen Require Import Runtime.Exec Proofs.GrowAxb Proofs.GrowIndirect Proofs.GrowHidden.
 Definition only (m : ir_module) (x : meth) : ir_module :=
   {| i_header := i_header m; i_subheader := i_subheader m; i_class := i_class m; i_keywords := i_keywords m;
      i_soft_keywords := i_soft_keywords m; i_trailer := i_trailer m; i_meths := [x] |}.
@@ -154,9 +156,10 @@ Definition tie_ok (c : grammar * N * egen * list (string * meth)) : bool :=
             cases.append(c[:-1] + ", [" + "; ".join(f'("{n}", {t})' for n, t in ms) + "])")
     bad = common.run_cases(chk, "axb", pre, "(grammar * N * egen * list (string * meth))", cases, "tie_ok", shard=2, timeout=600)
     if bad is not None:
-        chk.oblige("instances of C02_A_Ax_b_returns_the_left_nested_tree_of_b_xstar and C02_indirect_cycle_entered_at_*: the methods "
-                   "of the theorems (axb_meth; ind_a, ind_c) render to the same text as the methods a / a, c of the generator model's "
-                   "output for  a: a 'x' | 'b'  and  a: c 'x' | 'b' ; c: a  (model analysis included), and those outputs equal the "
+        chk.oblige("instances of C02_A_Ax_b_returns_the_left_nested_tree_of_b_xstar, C02_indirect_cycle_entered_at_* and "
+                   "C02_hidden_left_recursion_after_a_nullable_item: the methods of the theorems (axb_meth; ind_a, ind_c; hid_meth) render to the "
+                   "same text as the methods of the generator model's output for  a: a 'x' | 'b' ,  a: c 'x' | 'b' ; c: a  and  "
+                   "a: 'q'? a 'x' | 'b'  (model analysis included), and those outputs equal the "
                    "real generator's character by character (K-gen)", len(cases) == len(ties) and not bad, json.dumps(bad))
 
 
